@@ -395,6 +395,86 @@ def run_wait(case, env, mode):
     return out
 
 
+# ---- the arguments of wait_procs: callback kinds, container of procs, type of the timeout
+CB_TRUTHY = ("ok", "lambda", "bound", "partial")
+CB_FALSY = ("falsy_list", "falsy_len", "falsy_bool")      # callable, but bool(callback) is False
+CB_CALLABLE = CB_TRUTHY + CB_FALSY
+CB_BAD = ("bad", "bad_str")
+
+
+def make_callback(kind, record):
+    """record(proc) is the harness's recorder; the returned object is what wait_procs gets as callback="""
+    import functools
+    if kind == "none":
+        return None
+    if kind == "bad":
+        return 1
+    if kind == "bad_str":
+        return "not callable"
+    if kind == "ok":
+        return record
+    if kind == "lambda":
+        return lambda proc: record(proc)
+    if kind == "bound":
+        class Sink:
+            def on_terminate(self, proc):
+                record(proc)
+        return Sink().on_terminate
+    if kind == "partial":
+        return functools.partial(lambda tag, proc: record(proc), "tag")
+    if kind == "falsy_list":
+        class Collector(list):            # empty (falsy) until its first call
+            def __call__(self, proc):
+                record(proc)
+                self.append(proc)
+        return Collector()
+    if kind == "falsy_len":
+        class Sized:
+            def __len__(self):
+                return 0
+
+            def __call__(self, proc):
+                record(proc)
+        return Sized()
+    if kind == "falsy_bool":
+        class Quiet:
+            def __bool__(self):
+                return False
+
+            def __call__(self, proc):
+                record(proc)
+        return Quiet()
+    raise ValueError(kind)
+
+
+def _container(objs, how):
+    if how == "tuple":
+        return tuple(objs)
+    if how == "generator":
+        return (o for o in objs)
+    if how == "set":
+        return set(objs)
+    return list(objs)
+
+
+def _tm_typed(v, typ, mode):
+    """timeout as int / float / bool / Fraction when the value allows it (else as _tm_arg chooses)"""
+    if v is None or typ == "auto":
+        return _tm_arg(v, mode)
+    f = unq(v)
+    if typ == "bool" and f in (0, 1):
+        return bool(f)
+    if typ == "int" and f.denominator == 1:
+        return int(f)
+    if typ == "fraction":
+        return f if mode == "exact" else float(f)
+    if typ == "float":
+        d = f.denominator
+        if mode == "float" or d & (d - 1) == 0:      # exact run: only floats that are exact (Fraction + float rounds)
+            return float(f)
+    return _tm_arg(v, mode)
+
+
 def _int(x):
     return None if x is None else int(x)
 
@@ -593,8 +673,8 @@ def run_procs(case, env, mode):
         if "returncode" not in vars(proc):
             cbs.append(-2)
 
-    cb = {"none": None, "ok": callback, "bad": 1}[case["cb"]]
-    tm = _tm_arg(case["timeout"], mode)
+    cb = make_callback(case["cb"], callback)
+    tm = _tm_typed(case["timeout"], case.get("tm_type", "auto"), mode)
     res = {}
     # objects that were already waited for (their process had ended before), then used through other calls
     pre_bad = []
@@ -639,7 +719,7 @@ def run_procs(case, env, mode):
     try:
         with Patched(vk):
             try:
-                r = psutil.wait_procs(objs, timeout=tm, callback=cb)
+                r = psutil.wait_procs(_container(objs, case.get("procs_as", "list")), timeout=tm, callback=cb)
                 exc = None
             except BaseException as e:  # noqa
                 if isinstance(e, (KeyboardInterrupt, SystemExit)) or type(e).__name__ == "CaseTimeout":
@@ -791,7 +871,7 @@ def spec_procs(case, o, tol=0):
     exc = o["exc"]
     if tm is not None and tm < 0:
         return [] if (isinstance(exc, dict) and exc.get("t") == "ValueError") else ["negative timeout: expected ValueError, got %r" % (exc,)]
-    if case["cb"] == "bad":
+    if case["cb"] in CB_BAD:
         return [] if (isinstance(exc, dict) and exc.get("t") == "TypeError") else ["callback not callable: expected TypeError, got %r" % (exc,)]
     if exc is not None:
         return ["wait_procs raised %r" % (exc,)]
@@ -822,7 +902,7 @@ def spec_procs(case, o, tol=0):
     for i in alive:
         if i in rc:
             fails.append("alive process %d has a returncode" % i)
-    want_cbs = sorted(gone) if case["cb"] == "ok" else []
+    want_cbs = sorted(gone) if case["cb"] in CB_CALLABLE else []    # every callable, whatever its truth value
     if sorted(o["cbs"]) != want_cbs:
         fails.append("callbacks %r, expected once for each of %r" % (o["cbs"], want_cbs))
     stol = F(1, 10 ** 12)
